@@ -30,7 +30,8 @@ Inductive bop :=
 | BPop
 | BFlush (id : N)
 | BDelete (id : N)
-| BLex (k : nat).                              (* up to k calls of yylex (each action returns) *)
+| BLex (k : nat)                               (* up to k calls of yylex (each action returns) *)
+| BLexPop (k : nat).                           (* the same with a yywrap() that pops the buffer stack and returns 0 while a buffer lies below *)
 
 Inductive bevent :=
 | BTok (buf : N) (r : N) (text : list byte) (line : Z) (bol : bool)
@@ -102,6 +103,40 @@ Fixpoint lexk (p : program) (lineno : bool) (k : nat) (m : bm) : bm * list beven
             if go then let (m'', ev') := lexk p lineno k' m' in (m'', ev ++ ev') else (m', ev)
   end.
 
+(** yywrap() of an include-style scanner: at the end of the current buffer, if another buffer lies
+    below it on the stack, yypop_buffer_state() (the exhausted buffer is deleted) and "go on" *)
+Definition pop_state (m : bm) : bm :=
+  match m_stack m with
+  | [] => m
+  | top :: t => {| m_bufs := match top with Some i => bdel (m_bufs m) i | None => m_bufs m end; m_stack := t; m_sc := m_sc m |}
+  end.
+
+Definition exhausted (m : bm) : bool :=
+  match current m with
+  | Some id => match bget (m_bufs m) id with
+               | Some b => match b_data b with [] => true | _ => false end
+               | None => false
+               end
+  | None => false
+  end.
+
+Fixpoint lexp1 (p : program) (lineno : bool) (fuel : nat) (m : bm) : bm * list bevent * bool :=
+  match fuel with
+  | O => lex1 p lineno m
+  | S f =>
+      match m_stack m with
+      | Some _ :: Some _ :: _ => if exhausted m then lexp1 p lineno f (pop_state m) else lex1 p lineno m
+      | _ => lex1 p lineno m
+      end
+  end.
+
+Fixpoint lexpk (p : program) (lineno : bool) (k : nat) (m : bm) : bm * list bevent :=
+  match k with
+  | O => (m, [])
+  | S k' => let '(m', ev, go) := lexp1 p lineno (length (m_stack m)) m in
+            if go then let (m'', ev') := lexpk p lineno k' m' in (m'', ev ++ ev') else (m', ev)
+  end.
+
 Definition bstep (p : program) (lineno : bool) (m : bm) (o : bop) : bm * list bevent :=
   match o with
   | BCreate id c => ({| m_bufs := bset (m_bufs m) id (fresh c true); m_stack := m_stack m; m_sc := m_sc m |}, [])
@@ -138,6 +173,7 @@ Definition bstep (p : program) (lineno : bool) (m : bm) (o : bop) : bm * list be
                      end;
           m_sc := m_sc m |}, [])
   | BLex k => lexk p lineno k m
+  | BLexPop k => lexpk p lineno k m
   end.
 
 Fixpoint brun (p : program) (lineno : bool) (m : bm) (ops : list bop) : list bevent :=
@@ -207,13 +243,14 @@ Definition names (o : bop) (id : N) : Prop :=
   | BCreate i _ | BScan i _ | BFlush i | BDelete i => i = id
   | BSwitch _ | BPush _ => False
   | BPop | BLex _ => False
+  | BLexPop _ => True            (* may reach every stacked buffer: see [lexpop_off_stack_untouched] *)
   end.
 
 Theorem other_buffers_untouched p ln m o id :
   ~ names o id -> current m <> Some id ->
   bget (m_bufs (fst (bstep p ln m o))) id = bget (m_bufs m) id.
 Proof.
-  intros Hn Hc. destruct o as [i c|i c|i|i| |i|i|k]; cbn [bstep fst m_bufs names] in *.
+  intros Hn Hc. destruct o as [i c|i c|i|i| |i|i|k|k]; cbn [bstep fst m_bufs names] in *; [| | | | | | | |contradiction].
   - apply bget_bset_other. congruence.
   - apply bget_bset_other. congruence.
   - reflexivity.
@@ -257,4 +294,50 @@ Theorem flush_keeps_unread_file_text p ln m id b : bget (m_bufs m) id = Some b -
   exists b', bget (m_bufs (fst (bstep p ln m (BFlush id)))) id = Some b' /\ b_data b' = b_data b.
 Proof.
   intros Hb Hf. cbn [bstep]. rewrite Hb. cbn [fst m_bufs]. eexists. split; [apply bget_bset_same|]. cbn. rewrite Hf. reflexivity.
+Qed.
+
+(** ** popping inside yywrap() *)
+Definition on_stack (m : bm) (id : N) : Prop := In (Some id) (m_stack m).
+
+Lemma lexp1_off_stack p ln : forall fuel m id, ~ on_stack m id ->
+  bget (m_bufs (fst (fst (lexp1 p ln fuel m)))) id = bget (m_bufs m) id /\ ~ on_stack (fst (fst (lexp1 p ln fuel m))) id.
+Proof.
+  assert (Hlex : forall m id, ~ on_stack m id ->
+            bget (m_bufs (fst (fst (lex1 p ln m)))) id = bget (m_bufs m) id /\ ~ on_stack (fst (fst (lex1 p ln m))) id).
+  { intros m id Hn. split.
+    - apply lex1_other. unfold current, on_stack in *. destruct (m_stack m) as [|[i|] t]; try congruence.
+      intros E. inversion E; subst. apply Hn. left. reflexivity.
+    - unfold on_stack. rewrite lex1_stack. exact Hn. }
+  induction fuel as [|f IH]; intros m id Hn; cbn [lexp1]; [apply Hlex; exact Hn|].
+  destruct (m_stack m) as [|[a|] [|[b|] t]] eqn:Es; try (apply Hlex; exact Hn).
+  destruct (exhausted m); [|apply Hlex; exact Hn].
+  assert (Hn' : ~ on_stack (pop_state m) id).
+  { unfold on_stack, pop_state in *. rewrite Es in *. cbn [m_stack]. intros H. apply Hn. right. exact H. }
+  destruct (IH (pop_state m) id Hn') as [H1 H2]. split; [|exact H2].
+  rewrite H1. unfold pop_state. rewrite Es. cbn [m_bufs]. apply bget_bdel_other.
+  intros E. subst. apply Hn. unfold on_stack. rewrite Es. left. reflexivity.
+Qed.
+
+(** a buffer that is not on the stack is out of reach of yylex, however many buffers yywrap() pops *)
+Theorem lexpop_off_stack_untouched p ln : forall k m id, ~ on_stack m id ->
+  bget (m_bufs (fst (bstep p ln m (BLexPop k)))) id = bget (m_bufs m) id.
+Proof.
+  cbn [bstep]. induction k as [|k IH]; intros m id Hn; cbn [lexpk]; [reflexivity|].
+  destruct (lexp1_off_stack p ln (length (m_stack m)) m id Hn) as [H1 H2].
+  destruct (lexp1 p ln (length (m_stack m)) m) as [[m' ev] go]. cbn [fst] in *.
+  destruct go; [|exact H1].
+  specialize (IH m' id H2). destruct (lexpk p ln k m') as [m'' ev']. cbn [fst] in *. congruence.
+Qed.
+
+(** popping in yywrap() resumes the buffer pushed before exactly where it stopped: the step is the
+    ordinary step of the machine in which the exhausted buffer has been popped *)
+Theorem wrap_pop_resumes p ln m a b t fuel :
+  m_stack m = Some a :: Some b :: t -> exhausted m = true -> a <> b ->
+  lexp1 p ln (S fuel) m = lexp1 p ln fuel (pop_state m) /\
+  m_stack (pop_state m) = Some b :: t /\
+  bget (m_bufs (pop_state m)) b = bget (m_bufs m) b.
+Proof.
+  intros Hs He Hab. cbn [lexp1]. rewrite Hs, He. split; [reflexivity|].
+  unfold pop_state. rewrite Hs. cbn [m_stack m_bufs]. split; [reflexivity|].
+  apply bget_bdel_other. exact Hab.
 Qed.
